@@ -9,7 +9,14 @@ EXTENDS Base64, TextRand, TLC, Json, IOUtils
 CONSTANTS Bytes, MaxLen, RandLens
 VARIABLE s
 Seed == atoi(IOEnv.SEED)
-Init == s \in ({ << >> } \cup { RandBytes(Mix(Seed, n), n) : n \in RandLens })
+\* 48 bytes whose 6-bit groups are 0, 1, ..., 63: every symbol of the alphabet (every entry of both tables) occurs
+RECURSIVE AllSymsFrom(_, _)
+AllSymsFrom(g, acc) ==
+   IF g = 64 THEN acc
+   ELSE LET w == g * 262144 + (g + 1) * 4096 + (g + 2) * 64 + (g + 3)
+        IN AllSymsFrom(g + 4, acc \o << w \div 65536, (w \div 256) % 256, w % 256 >>)
+AllSyms == AllSymsFrom(0, << >>)
+Init == s \in ({ << >>, AllSyms } \cup { RandBytes(Mix(Seed, n), n) : n \in RandLens })
 Next == /\ Len(s) < MaxLen
         /\ \E b \in Bytes : s' = Append(s, b)
 Spec == Init /\ [][Next]_s
@@ -27,8 +34,13 @@ RECURSIVE J2From(_, _, _)
 J2From(t, i, acc) == IF i > Len(t) THEN acc
                      ELSE J2From(t, i + 1, IF i % 3 = 0 THEN acc \o << t[i], 13, 10 >> ELSE Append(acc, t[i]))
 J2(t) == J2From(t, 1, << >>)
-\* J3: junk only in front and behind
-J3(t) == << 32, 9, 0 >> \o t \o << 255, 10 >>
+\* J3: junk only in front and behind; for the shortest inputs the front part is EVERY byte value that is
+\* neither an alphabet symbol nor '=' (191 values), so every "skip" entry of the decoder's table is consulted
+RECURSIVE NonSymsFrom(_, _)
+NonSymsFrom(b, acc) == IF b = 256 THEN acc
+                       ELSE NonSymsFrom(b + 1, IF IsSym(b) \/ b = Pad THEN acc ELSE Append(acc, b))
+NonSyms == NonSymsFrom(0, << >>)
+J3(t) == (IF Len(s) <= 1 THEN NonSyms ELSE << 32, 9, 0 >>) \o t \o << 255, 10 >>
 
 E == Encode(s)
 RoundTrip        == Decode(E) = s
@@ -37,11 +49,13 @@ LenLaw           == Len(E) = EncLen(Len(s))
 DecLenLaw        == Len(s) = (3 * Len(StripPad(E))) \div 4
 PadLaw           == Len(E) - Len(StripPad(E)) = (3 - (Len(s) % 3)) % 3
 Canonical        == \A i \in 1..Len(E) : IsSym(E[i]) \/ (E[i] = Pad /\ i > Len(E) - 2)
-JunkIsJunk       == \A i \in 1..Len(Junk) : ~IsSym(Junk[i]) /\ Junk[i] # Pad
+ASSUME JunkIsJunk == /\ \A i \in 1..Len(Junk) : ~IsSym(Junk[i]) /\ Junk[i] # Pad
+                     /\ Len(NonSyms) = 191
+                     /\ \A v \in 0..63 : \E i \in 1..64 : Encode(AllSyms)[i] = Sym(v)
 TolerantIgnoresJunk == /\ DecodeTolerant(J1(E)) = s
                        /\ DecodeTolerant(J2(E)) = s
                        /\ DecodeTolerant(J3(E)) = s
-FilterLaw        == OnlySyms(J1(E)) = StripPad(E)
+FilterLaw        == OnlySyms(J1(E)) = StripPad(E) /\ OnlySyms(J3(E)) = StripPad(E)
 Emit == PrintT(ToJson([in |-> s, enc |-> E, encnp |-> StripPad(E),
                        j1 |-> J1(E), j2 |-> J2(E), j3 |-> J3(E), syms |-> OnlySyms(J1(E))]))
 =============================================================================
